@@ -2,7 +2,11 @@
 
 package lossy
 
-import "slices"
+import (
+	"slices"
+
+	"github.com/maypok86/otter/v2/internal/verif/vsched"
+)
 
 // VerifStripes reports the current number of stripes (0 before first use).
 func (s *Striped[K, V]) VerifStripes() int {
@@ -20,6 +24,11 @@ func VerifBufferSize() int { return bufferSize }
 // same publication), so that scenarios can start from the reachable states with empty stripes between rings
 // without spending four preemptions on getting there. No-op before first use or at the maximum length.
 func (s *Striped[K, V]) VerifDouble() bool {
+	// like expandOrRetry: the table is replaced under the busy flag
+	for !(s.busy.Load() == 0 && s.busy.CompareAndSwap(0, 1)) {
+		vsched.Yield()
+	}
+	defer s.busy.Store(0)
 	bs := s.striped.Load()
 	if bs == nil || bs.len >= s.maxLen {
 		return false
